@@ -122,7 +122,54 @@ func (g *gen) goCallee(name string, pre *[]Stmt) Expr {
 	return Index{Var{tb}, Var{k}}
 }
 
+// sSelfTail: a function that captures one of its locals in a closure and then tail-calls itself: every activation
+// gets a fresh variable, and the closures collected along the way keep theirs.
+func (g *gen) sSelfTail(fc *fctx) []Stmt {
+	g.use("self_tail_call_with_capture")
+	g.cost(60)
+	acc, loop, i, n, v, cl := g.fresh("acc"), g.fresh("lp"), g.fresh("i"), g.fresh("n"), g.fresh("v"), g.fresh("cl")
+	g.prog.NFuncs++
+	clDef := &FuncDef{ID: g.prog.NFuncs, Body: []Stmt{
+		&Assign{Targets: []Expr{Var{v}}, Exprs: []Expr{Bin{"+", Var{v}, Num{1}}}}, &Return{Exprs: []Expr{Var{v}}}}}
+	g.prog.NFuncs++
+	capturesParam := g.ch(2) == 0
+	body := []Stmt{&Local{Names: []string{v}, Exprs: []Expr{Bin{"*", Var{i}, Num{10}}}}}
+	if capturesParam {
+		// the closure captures the parameter itself
+		v = i
+		clDef.Body = []Stmt{&Assign{Targets: []Expr{Var{v}}, Exprs: []Expr{Bin{"+", Var{v}, Num{100}}}}, &Return{Exprs: []Expr{Var{v}}}}
+		body = nil
+	}
+	body = append(body,
+		&Local{Names: []string{cl}, Exprs: []Expr{Func{clDef}}},
+		&Assign{Targets: []Expr{Index{Var{acc}, Bin{"+", Un{"#", Var{acc}}, Num{1}}}}, Exprs: []Expr{Var{cl}}},
+		&If{Conds: []Expr{Bin{">=", Var{i}, Var{n}}}, Blocks: [][]Stmt{{&Return{Exprs: []Expr{Str{"done"}}}}}},
+		&ReturnCall{Fn: Var{loop}, Args: []Expr{Bin{"+", Var{i}, Num{1}}, Var{n}}})
+	loopDef := &FuncDef{ID: g.prog.NFuncs, Params: []string{i, n}, Body: body}
+	cnt := 2 + g.ch(3)
+	r := g.fresh("r")
+	out := []Stmt{
+		&Local{Names: []string{acc}, Exprs: []Expr{TableCons{}}},
+		&Local{Names: []string{loop}, Exprs: []Expr{Func{loopDef}}, Rec: true},
+		&Call{Names: []string{r}, Fn: Var{loop}, Args: []Expr{Num{1}, Num{float64(cnt)}}},
+	}
+	args := []Expr{Str{"st"}, Var{r}}
+	for k := 1; k <= cnt; k++ {
+		x := g.fresh("x")
+		out = append(out, &Call{Names: []string{x}, Fn: Index{Var{acc}, Num{float64(k)}}})
+		args = append(args, Var{x})
+	}
+	x := g.fresh("x")
+	out = append(out, &Call{Names: []string{x}, Fn: Index{Var{acc}, Num{1}}})
+	args = append(args, Var{x})
+	out = append(out, &Call{Fn: Var{"emit"}, Args: args})
+	return []Stmt{&Do{Body: out}}
+}
+
 func (g *gen) sFunc(fc *fctx) []Stmt {
+	if g.feat("tailcall") && g.feat("closure") && g.ch(10) == 0 {
+		return g.sSelfTail(fc)
+	}
 	g.use("closure")
 	if g.feat("factory") && g.ch(3) == 0 && fc.level < 2 {
 		return g.sFactory(fc)
@@ -972,6 +1019,12 @@ func (g *gen) yieldStmt(fc *fctx) []Stmt {
 		g.declare(&varInfo{name: nm, k: kAny, fnLevel: fc.level})
 	}
 	c := &Call{Names: names, Fn: Var{"coyield"}, Args: args}
+	if g.feat("hostcall") && g.ch(5) == 0 {
+		// suspend through the Go API (a host function that returns L.Yield(...)): the number of values yielded is
+		// independent of the number of arguments the host function received
+		g.use("yield_from_host_function")
+		c = &Call{Names: names, Fn: Var{"hostyield"}, Args: []Expr{Num{float64(g.ch(4))}, Num{float64(100 * (1 + g.ch(9)))}}}
+	}
 	out := []Stmt{c}
 	if len(names) > 0 {
 		out = append(out, g.emitVars("y", names...))
